@@ -70,7 +70,7 @@ func TestC04Builder(t *testing.T) {
 		},
 		Teardown: func() { env.Close() },
 		Gen: func(t *rapid.T) spec {
-			return spec{Img: btgen.Image(t, btgen.Opts{MaxRows: 80, LongValues: true, RowidAlias: true})}
+			return spec{Img: btgen.Image(t, btgen.Opts{MaxRows: 80, LongValues: true, RowidAlias: true, PageSizes: []int{512, 512, 512, 512, 1024, 1024, 4096, 4096, 65536, 32768}})}
 		},
 		Run: run,
 	})
